@@ -479,6 +479,66 @@ func runC04Extra(e *core.Env) {
 			}
 		}
 	})
+	// the context ends while no receive is pending (the client is between two receives) and the server has not
+	// finished: the receives that follow report the context's status
+	e.Cases("cancel-between-receives", e.N(24, 240), func(i int, r *rand.Rand) {
+		for _, c := range cs.list {
+			mode := pick(r, "cancel", "deadline")
+			mk := func(k int) *tpb.Message { return &tpb.Message{Payload: []byte(fmt.Sprintf("between-%d-%d", i, k))} }
+			sc := &Script{Kind: ServerStream, RecvAfterSend: c.HTTP}
+			sc.Sender = []Op{{Op: "send", Msg: mk(100)}, {Op: "close"}}
+			sc.Handler = []Op{{Op: "recv"}, {Op: "send", Msg: mk(0)}, {Op: "send", Msg: mk(1)}, {Op: "gate", Gate: "hold"}, {Op: "send", Msg: mk(2)}}
+			sc.Receiver = []Op{{Op: "recv"}, {Op: "recv"}, {Op: "gate", Gate: "idle"}, {Op: "recv"}, {Op: "recv"}}
+			run := c.Svc.NewRun(sc, c.Name)
+			vd := newVD()
+			var parent context.Context = vd
+			var cancel context.CancelFunc = vd.Fire
+			if mode == "cancel" {
+				parent, cancel = context.WithCancel(context.Background())
+			}
+			done := make(chan struct{})
+			go func() {
+				run.Exec(c.CC, parent, watchdog)
+				close(done)
+			}()
+			// wait for the client to sit at its gate
+			reached := false
+			for k := 0; k < 5000 && !reached; k++ {
+				for _, ev := range run.Events() {
+					if ev.Who == "cr" && ev.Op == "gate:idle" && ev.Call {
+						reached = true
+					}
+				}
+				if !reached {
+					time.Sleep(time.Millisecond)
+				}
+			}
+			tEnd := core.Tick()
+			cancel()
+			time.Sleep(3 * time.Millisecond) // whatever watches the context inside the library gets to see it first
+			run.Release("idle")
+			fin, stuck, dump := waitDoneOrStuck(run.ClientDone, 20*time.Second)
+			run.ReleaseAll()
+			<-done
+			vd.Fire()
+			run.Cancel()
+			c.Svc.Forget(run)
+			e.Eval(fmt.Sprintf("cancel-between-receives|%s|%s", c.Name, mode), reached)
+			if !reached {
+				e.Inconclusive("C04 cancel-between-receives: the client did not reach its pause on %s", c.Name)
+				continue
+			}
+			if !fin {
+				if stuck {
+					e.Violate(fmt.Sprintf("%s/stream/between-receives/not-prompt", c.Name), "receives issued after the context had ended did not return: "+parkedSummary(dump), witness(run))
+				}
+				continue
+			}
+			for _, v := range cancelOracle(run, mode, tEnd, c) {
+				e.Violate(fmt.Sprintf("%s/stream/between-receives/%s", c.Name, v.sig), fmt.Sprintf("[context ended (%s) between two receives] %s", mode, v.msg), witness(run))
+			}
+		}
+	})
 	// real, short deadlines: the client-side and the server-side timer race each other and the handler's work
 	e.Cases("real-deadline", e.N(120, 1500), func(i int, r *rand.Rand) {
 		kind := Kind(i % 4)
